@@ -112,11 +112,11 @@ def serSSCChart (c : SSCChart) : Except Err (List Item) :=
   let nk := notesKey c
   match c.props.get? nk with
   | none => .error .keyError
-  | some none => .error .attributeError
-  | some (some notes) =>
+  | some v =>
+    -- note data stored as None (a key-only `#NOTES;` was loaded) is written back key-only
     .ok ([Item.param ⟨[kNOTEDATA, []]⟩, Item.text nl] ++
          serProps (c.props.filter fun kv => kv.1 ≠ nk) ++
-         [Item.param ⟨[nk, notes]⟩, Item.text (nl ++ nl)])
+         [Item.param (match v with | none => ⟨[nk]⟩ | some notes => ⟨[nk, notes]⟩), Item.text (nl ++ nl)])
 
 def serSSC (s : SSCSimfile) : Except Err (List Item) := do
   let cs ← s.charts.mapM fun c => do
